@@ -17,7 +17,10 @@ def run_variant(chk, variant, n, depth, width):
     # slot reuse / identical signatures / stale entry points: registration churn before the tree
     ops += [f"{cmd} R 0 0 0 R 0 1 1 U 0 R 0 2 2 T I 0 5 n C 2 1 10 n E C 1 2 20 n E E",
             f"{cmd} R 0 0 0 R 1 1 0 R 0 2 1 R 1 3 1 T I 0 1 n C 0 1 1 n I 1 2 n C 1 2 2 n E E E C 2 3 3 n E E",
-            f"{cmd} R 0 0 3 R 0 0 2 R 0 0 1 T I 0 9 n C 2 4 40 n E E"]
+            f"{cmd} R 0 0 3 R 0 0 2 R 0 0 1 T I 0 9 n C 2 4 40 n E E",
+            # a callback body creates, uses and destroys a helper sandbox (number 2); the executing sandbox's later callbacks are unaffected
+            f"{cmd} R 0 0 0 R 0 1 1 T I 0 5 n C 0 7 70 n I 2 3 n E E C 1 8 80 n E C 0 9 90 n I 2 4 nv E I 1 6 n E E E",
+            f"{cmd} R 1 0 2 T I 2 1 n E I 1 5 n C 0 7 70 n I 2 3 n E I 2 4 n E E E I 2 9 n E"]
     # a callback whose result is a pointer into sandbox memory; many simultaneously live entry points (more than 32 on the
     # bundled backends), one released, two more registered: every entry point still runs its own function
     for sb in (0, 1):
@@ -45,7 +48,7 @@ def run(chk):
     chk.cov["input_distribution"] = {"trees": len(allops), "mean_tokens": round(sum(lens) / max(1, len(lens)), 1), "max_tokens": max(lens),
                                      "with_callbacks": sum(1 for o in allops if " C " in o), "with_fault": sum(1 for o in allops if any(f" {x} " in o for x in "abr"))}
     chk.cov["rule"] = ("random registration/unregistration histories (4 callbacks with identical signatures, 6 owner variables, overwrites, slot reuse) followed by random call trees "
-                       "(depth <= 4, width <= 3, nesting across 2 live sandboxes, boundary argument/result values, faults at argument conversion / callback body / result conversion) on "
+                       "(depth <= 4, width <= 3, nesting across 2 live sandboxes plus a helper sandbox created, used and destroyed inside a callback body, boundary argument/result values, faults at argument conversion / callback body / result conversion) on "
                        "{foreign-ABI vsbx, noop, noop with embedder-provided TLS, dylib (guest functions in a dlopen'ed shared object), dylib with embedder-provided TLS}; oracle: the function registered for the entry point on the executing sandbox runs, once, with that sandbox "
                        "and the guest's argument, and its result reaches the guest unless a fault struck")
     chk.add_samples([{"tree": o} for o in allops[:3]])
